@@ -657,6 +657,9 @@ func (e *Engine) trCall(env *SpecEnv, n SCall) Val {
 		if err != nil {
 			e.specFail(env, err.Error())
 		}
+		if types.IsInterface(t) {
+			return boolVal(e.implementsTerm(x.T, t))
+		}
 		return boolVal("(= (dyntype " + x.T + ") " + e.typeTag(t) + ")")
 	case "unbox":
 		x := arg(0)
